@@ -194,8 +194,13 @@ def run_resize_array(ctx):
                     b = rng.integers(-5, 6, size=newshp).astype(dt)
                     if dt == 'complex128':
                         b = b + 1j * rng.integers(-5, 6, size=newshp)
-                    adj = resize_array(b, shp, offs, mode, 0, direction='adjoint')
+                    # (a non-zero pad_const is documented to matter for 'constant' only: handed in for the other modes, ignored)
+                    adj = resize_array(b, shp, offs, mode, 0 if mode == 'constant' else 2.5, direction='adjoint')
                     expT = apply_ref_T(b, shp, offs, mode)
+                    if mode != 'constant':
+                        fw2 = resize_array(arr, newshp, offs, mode, 2.5)
+                        if not np.allclose(fw2, exp, rtol=1e-6 if dt == 'float32' else 1e-13, atol=1e-12):
+                            ctx.violation(comp, cfg, 'value!=reference', shp=shp, newshp=newshp, offs=offs, note='pad_const given for a non-constant mode')
                     if adj.shape != tuple(shp) or not np.allclose(adj, expT, rtol=1e-6 if dt == 'float32' else 1e-13, atol=1e-12):
                         ctx.violation(comp, cfg, 'adjoint!=transpose', shp=shp, newshp=newshp, offs=offs, got=adj, ref=expT)
                     lhs = np.sum(got.astype(complex) * b)
@@ -420,6 +425,40 @@ def run_range_geometry(ctx):
             ctx.violation('ResizingOperator', cfg, 'raises:' + type(e).__name__, message=str(e)[:200])
 
 
+def run_explicit_range(ctx):
+    """ResizingOperator(domain, range): the offset is recovered from the two spaces - also in axes with a single cell (cell
+    side = extent, grid stride 0) and for cell sides != 1.  Values and offset must be those of the operator that built
+    the range from ran_shp + offset."""
+    rng = ctx.rng('explicit-range')
+    idx = 20000
+    doms = [('1d-1cell', odl.uniform_discr(0.5, 2.5, 1)), ('2d-(4,1)', odl.uniform_discr([0, -1], [1, 3], (4, 1))), ('2d-(1,3)', odl.uniform_discr([0, 0], [0.3, 3], (1, 3))),
+            ('1d-5cells', odl.uniform_discr(0.5, 2.0, 5)), ('2d-(3,2)', odl.uniform_discr([0, -1], [1.5, 3], (3, 2)))]
+    for (tag, sp), grow, offkind in itertools.product(doms, (1, 2, 3), ('left', 'right', 'default', 'interior')):
+        idx += 1
+        if not ctx.mine(idx):
+            continue
+        nd = sp.ndim
+        ran_shp = tuple(k + grow for k in sp.shape)
+        offs_in = {'left': (0,) * nd, 'right': (grow,) * nd, 'default': None, 'interior': (max(grow - 1, 0),) * nd}[offkind]
+        cfg = '%s;offset=%s' % ('one-cell-axis' if 1 in sp.shape else 'several-cells', offkind)
+        ctx.case('explicit-range;' + tag, (grow, offkind))
+        ctx.ev('resizing-operator')
+        try:
+            op0 = odl.ResizingOperator(sp, ran_shp=ran_shp, **({} if offs_in is None else {'offset': offs_in}))
+            op1 = odl.ResizingOperator(sp, op0.range)
+            if tuple(op1.offset) != tuple(op0.offset):
+                ctx.violation('ResizingOperator', cfg, 'offset-not-recovered-from-range', got=tuple(int(o) for o in op1.offset), want=tuple(int(o) for o in op0.offset))
+                continue
+            x = util.rand_element(sp, rng)
+            if not np.allclose(np.asarray(op1(x)), np.asarray(op0(x)), rtol=1e-13):
+                ctx.violation('ResizingOperator', cfg, 'value!=resize_array')
+            back = odl.ResizingOperator(op0.range, sp)
+            if not np.allclose(np.asarray(back(op0(x))), np.asarray(x), rtol=1e-13):
+                ctx.violation('ResizingOperator', cfg, 'crop-back!=x')
+        except Exception as e:
+            ctx.violation('ResizingOperator', cfg, 'raises:' + type(e).__name__, message=str(e)[:200])
+
+
 def run(ctx):
     ctx.note('rule', 'one case = (old shape, new shape, offsets, pad mode, dtype/layout); the lattice per-axis '
                      '{grow, shrink, same} x offsets {0, max, interior} x 5 modes x ndim 1..3 is enumerated, plus seeded '
@@ -433,6 +472,7 @@ def run(ctx):
     run_resize_array(ctx)
     run_operator(ctx)
     run_range_geometry(ctx)
+    run_explicit_range(ctx)
     cov.disarm()
     n_exec, n_hit, unreached = cov.report()
     ctx.note('line_coverage', {'executable': n_exec, 'hit': n_hit})
